@@ -17,7 +17,8 @@ THEOREMS = ['ChamVerif.Sys.Cache.C15_crash_safe', 'ChamVerif.Sys.Cache.C15_build
             'ChamVerif.Sys.Cache.C15_probe_sane',
             'ChamVerif.Sys.Cache.C15_key_separates_values', 'ChamVerif.Sys.Cache.utf8_prefix_free',
             'ChamVerif.Sys.Cache.C15_body_key_injective', 'ChamVerif.Sys.Cache.C15_body_key_ignore_counterexample',
-            'ChamVerif.Sys.Cache.C15_body_key_tie']
+            'ChamVerif.Sys.Cache.C15_body_key_tie', 'ChamVerif.Sys.Cache.C15_key_bytes_injective',
+            'ChamVerif.Sys.Cache.C15_key_bytes_old_counterexample', 'ChamVerif.Sys.Cache.C15_key_layout_tie']
 LEVEL_TEXT = ('Proved in Lean over the file-system step model of ModuleLoader.build/get: two writers of one entry with unique temporary names, run '
               'under any schedule and crashing at any points (arbitrary event list, no length bound), leave an entry that is absent, unchanged, '
               'or the complete module of one writer — never empty, header-only or torn (C15_crash_safe, invariant over every step); an '
@@ -28,12 +29,14 @@ LEVEL_TEXT = ('Proved in Lean over the file-system step model of ModuleLoader.bu
               'statement is refuted by C15_keyed_covers_counterexample). The source text enters the key as UTF-8 with the errors mode observed on the '
               'real digest in this run (C15_body_key_tie: surrogatepass), and that encoding is injective on all strings, lone surrogates included '
               '(C15_body_key_injective, from utf8_prefix_free; with the mode the code used before the D-15c fix two sources share their bytes: '
-              'C15_body_key_ignore_counterexample). The step model is tied to the code by replaying the same '
+              'C15_body_key_ignore_counterexample). The class name and the source are laid out unambiguously in the hashed bytes - class, NUL, '
+              'source (C15_key_layout_tie, observed; C15_key_bytes_injective) - where the layout before the D-15d fix let "Hello " + "PageTemplate" '
+              'and "Hello Page" + "Template" collide (C15_key_bytes_old_counterexample). The step model is tied to the code by replaying the same '
               'two-writer schedules (crashes included) on real directories through the guarded hook points; soundness is judged by '
               'compiling all single-option pairs in both orders into one cache directory, in one and across processes.')
 LEVEL_NOTE = ('Trusted / assumed: rename atomicity, mkstemp uniqueness (observed per run, necessary by the counterexample), SHA collision '
               'freeness (Injective hash), process crash not power loss (written data is visible); the byte-code file written by py_compile '
-              'is not modelled (exercised by the crash oracle through a real import). D-15a (fix: c134a76) and D-15c (fix: 5fec397, lone surrogates ignored by the key) were repaired in /repo. Known '
+              'is not modelled (exercised by the crash oracle through a real import). D-15a (fix: c134a76) D-15c (fix: 5fec397, lone surrogates ignored by the key) and D-15d (body directly followed by the class name) were repaired in /repo. Known '
               'finding D-15b: custom tokenizer / expression_types / default_marker influence compilation but are not keyed.')
 RULE = ('(a) every pair of configurations differing in exactly one of 13 constructor options, or in body / template class / filename, compiled in '
         'both orders into one cache directory (in-process and in two fresh processes with CHAMELEON_CACHE); (b) every crash point between the '
@@ -235,6 +238,13 @@ KEY_SCRIPT = r'''
 import json, sys
 from chameleon import PageTemplate, PageTextTemplate
 from chameleon.zpt.template import PageTemplateFile
+from chameleon import tales
+class Sub(PageTemplate):
+    # a user subclass that compiles the same source differently (python: expressions are string: expressions here)
+    expression_types = dict(PageTemplate.expression_types, python=tales.StringExpr)
+class Template(PageTemplate):
+    # a class whose name, appended to a body, spells another (body, class name) pair: "Hello " + "PageTemplate" = "Hello Page" + "Template"
+    pass
 jobs = json.load(sys.stdin)
 out = []
 for j in jobs:
@@ -243,7 +253,7 @@ for j in jobs:
         if kw.get(k) is not None: kw[k] = set(kw[k])
         elif k in kw: del kw[k]
     if kw.get('encoding', 0) is None: del kw['encoding']
-    cls = {'PageTemplate': PageTemplate, 'PageTextTemplate': PageTextTemplate}[j.get('cls', 'PageTemplate')]
+    cls = {'PageTemplate': PageTemplate, 'PageTextTemplate': PageTextTemplate, 'Sub': Sub, 'Template': Template}[j.get('cls', 'PageTemplate')]
     try:
         if j.get('file'):
             r = PageTemplateFile(j['file'], **kw)()
@@ -281,6 +291,8 @@ def pairs(rng, root):
     for b1, b2 in itertools.combinations(close, 2):
         ps.append(({'body': b1, 'kw': {}}, {'body': b2, 'kw': {}}, 'body (close sources)'))
     ps.append(({'body': '<b>${1}</b>', 'kw': {}, 'cls': 'PageTemplate'}, {'body': '<b>${1}</b>', 'kw': {}, 'cls': 'PageTextTemplate'}, 'class'))
+    ps.append(({'body': '<b>${1 + 1}</b>', 'kw': {}, 'cls': 'PageTemplate'}, {'body': '<b>${1 + 1}</b>', 'kw': {}, 'cls': 'Sub'}, 'class (user subclass)'))
+    ps.append(({'body': 'Hello ', 'kw': {}, 'cls': 'PageTemplate'}, {'body': 'Hello Page', 'kw': {}, 'cls': 'Template'}, 'body / class-name boundary'))
     d1, d2 = os.path.join(root, 'f1'), os.path.join(root, 'f2')
     os.makedirs(d1, exist_ok=True)
     os.makedirs(d2, exist_ok=True)
